@@ -33,6 +33,21 @@ type Family struct {
 	Name   string
 	Site   string
 	Thunks []Thunk
+	// Pairs, when non-nil, lists the pairs (i, j) of thunks to run side by side; nil = every i < j.
+	Pairs [][2]int
+}
+
+func (f Family) pairs() [][2]int {
+	if f.Pairs != nil {
+		return f.Pairs
+	}
+	var out [][2]int
+	for i := range f.Thunks {
+		for j := i + 1; j < len(f.Thunks); j++ {
+			out = append(out, [2]int{i, j})
+		}
+	}
+	return out
 }
 
 // Scn is the replay description of one scenario.
@@ -121,25 +136,24 @@ func Run(c *core.Ctx, fams []Family) {
 	pairs := 0
 	for _, f := range fams {
 		var ref []uint64
-		for i := range f.Thunks {
-			for j := i + 1; j < len(f.Thunks); j++ {
-				idx++
-				pairs++
-				if !c.Mine(idx) {
-					continue
-				}
-				if c.Expired() {
+		for _, pr := range f.pairs() {
+			i, j := pr[0], pr[1]
+			idx++
+			pairs++
+			if !c.Mine(idx) {
+				continue
+			}
+			if c.Expired() {
+				return
+			}
+			if ref == nil {
+				var ok bool
+				if ref, ok = references(c, f); !ok {
 					return
 				}
-				if ref == nil {
-					var ok bool
-					if ref, ok = references(c, f); !ok {
-						return
-					}
-					rl.New() // whatever the sequential runs printed is not attributed to a schedule
-				}
-				schedlib.Explore(c, rl, scenario(f, i, j, ref, bounds))
+				rl.New() // whatever the sequential runs printed is not attributed to a schedule
 			}
+			schedlib.Explore(c, rl, scenario(f, i, j, ref, bounds))
 		}
 	}
 	c.Bound("concurrent_twins", fmt.Sprintf("%d families, %d pairs of calls (each call twice per goroutine), preemption bounds %v", len(fams), pairs, bounds))
